@@ -301,6 +301,23 @@ for _oid, _h, _tier, _what in (
        what="byte buffers, %s: a legal access reads/writes exactly the addressed bytes; out of range, negative, straddling, freed or never-issued handles and out-of-range values are errors that change no byte of any buffer" % _what,
        functions=BYTES_FNS, bounds=BYTES_BOUNDS, stubs=VM_STUBS)
 
+# second part: 8-byte integers, floats, swap / reverse / equals (harness/inrepo/c09_bytes2.rs; buffers sized so the widest legal access exists)
+for _oid, _h, _tier, _what, _b in (
+        ("O4wu64", "c09_o4_w_u64_le", "thorough", "write_u64", "9+3"), ("O4ru64", "c09_o4_r_u64_le", "thorough", "read_u64", "9+3"),
+        ("O4wi64", "c09_o4_w_i64_le", "thorough", "write_i64", "9+3"), ("O4ri64", "c09_o4_r_i64_le", "thorough", "read_i64", "9+3"),
+        ("O4wu64be", "c09_o4_w_u64_be", "thorough", "write_u64_be", "9+3"), ("O4ru64be", "c09_o4_r_u64_be", "thorough", "read_u64_be", "9+3"),
+        ("O4wi64be", "c09_o4_w_i64_be", "thorough", "write_i64_be", "9+3"), ("O4ri64be", "c09_o4_r_i64_be", "thorough", "read_i64_be", "9+3"),
+        ("O4wf32", "c09_o4_w_f32_le", "thorough", "write_f32 (float or int argument)", "5+3"), ("O4rf32", "c09_o4_r_f32_le", "thorough", "read_f32", "5+3"),
+        ("O4wf32be", "c09_o4_w_f32_be", "thorough", "write_f32_be", "5+3"), ("O4rf32be", "c09_o4_r_f32_be", "thorough", "read_f32_be", "5+3"),
+        ("O4wf64", "c09_o4_w_f64_le", "thorough", "write_f64", "9+3"), ("O4rf64", "c09_o4_r_f64_le", "thorough", "read_f64 (NaN patterns come back as the canonical NaN, never as a forged tagged value)", "9+3"),
+        ("O4wf64be", "c09_o4_w_f64_be", "thorough", "write_f64_be", "9+3"), ("O4rf64be", "c09_o4_r_f64_be", "thorough", "read_f64_be", "9+3"),
+        ("O4swap", "c09_o4_swap", "thorough", "swap (both indices checked before either byte moves)", "4+3"),
+        ("O4reverse", "c09_o4_reverse", "thorough", "reverse of a sub-range", "4+3"),
+        ("O4equals", "c09_o4_equals", "thorough", "equals (reads only; both handles must be live)", "3+3")):
+    ob("C09", _oid, "runtime", "shell.rs", _h, path=SHELL_PATH + _h, tier=_tier, timeout=1800, args=(["--default-unwind", "10"] if _b == "9+3" else U7),
+       what="byte buffers, %s: a legal access reads/writes exactly the addressed bytes; out of range, negative, straddling, freed or never-issued handles and non-numeric values are errors that change no byte of any buffer" % _what,
+       functions=BYTES_FNS, bounds="two live buffers of %s symbolic bytes + one freed handle; every argument an arbitrary 64-bit Value" % _b, stubs=VM_STUBS)
+
 ob("C01", "Unegf", "opt", "fold.rs", "c01_fold_unary_neg_float", path=FOLD_PATH + "c01_fold_unary_neg_float", tier="quick", timeout=600,
    what="unary minus on a float literal folds to exactly the VM's negation (sign bit flipped: -0.0 from 0.0)", functions=["aelys_opt ConstantFolder::try_fold_unary"],
    bounds="all f64 bit patterns", stubs=[])
